@@ -92,6 +92,29 @@ SEEDS2 = {
  "C20-4": ("C20-2", "a resolver nested in a resolver over an _entities fetch mixing two entity types", "C20 quick", "caught as built"),
 }
 
+# ---- round 3 (my own checks only; third independent set, told what rounds 1 and 2 had taken);
+# stored as <property>-5 / <property>-6; sources /tmp/seedout3/<property>-1|2, logs /tmp/seedlogs3
+SEEDS3 = {
+ "C01-5": ("C01-1", "a list field selected at INTERFACE level (no fragment), an entity field of another subgraph below it, no enclosing list, >= 2 elements (planned as a single entity fetch instead of a batch)", "C01 quick", "missed as built; caught after S-ireq got a list field on the interface"),
+ "C01-6": ("C01-2", "a list with a duplicate or null BEFORE an entity that occurs again later (u1 u1 u2 u3 u2): the de-duplicated batch index differs from the item index", "C01 quick", "missed as built - and the out-of-range panic it causes for other orders was SWALLOWED by the driver (a panic unwinding through the recorder's deferred Finish left a partial result that was merged as a normal shard): driver fixed; caught after S-ireq got lists with duplicates / nulls before a repeated entity"),
+ "C07-5": ("C07-1", "a failure recognised only through the status fallback (non-2xx with a non-JSON body, or JSON with neither data nor errors) and a dependant with a nullable @requires input", "C07 quick", "missed as built; caught after adding the fault kinds http-502-html, http-500-json-other, http-200-json-other"),
+ "C07-6": ("C07-2", "a fault at the fetch that provides a BOOLEAN field of an object that still exists (nil dereference in walkBoolean)", "C07 quick", "missed as built (no Boolean leaf in any model); caught after S-shapes got Boolean / Float / custom scalar leaves (crash = violation)"),
+ "C08-5": ("C08-1", "ONE postprocess.Processor handling two plans in sequence (state leaking between plans)", "MISSED (author resumed)", "missed as built (fresh Processor per plan)"),
+ "C08-6": ("C08-2", "a chain of four fetches whose ids are not in dependency order plus side branches (transitive closure only two levels deep)", "MISSED (author resumed)", "missed as built"),
+ "C09-5": ("C09-1", "the same request TEXT twice with different normalized operations (a @skip/@include variable that flips, one document with two operation names): plan cache keyed by the raw input", "C09 quick", "missed as built; caught after adding such requests to the history alphabet"),
+ "C09-6": ("C09-2", "minification on, a subgraph operation > 140 bytes with the same inline fragment three times and the abstract field first", "C09 quick", "missed as built; caught after adding minifiable operations to the S-abs alphabet"),
+ "C10-5": ("C10-1", "the writer's Flush fails on an incremental frame after the first frame was committed", "C10 quick", "missed as built (the writer never failed); caught after adding executions with a writer whose k-th flush fails"),
+ "C10-6": ("C10-2", "four nested @defer levels, the third merged away because its field is also selected by the second", "MISSED", "not caught: placements have at most 2 (thorough 3) defer sites and no duplicated fields across levels (limit, DESIGN 8.6)"),
+ "C11-5": ("C11-1", "an inbound leader whose context ends by DEADLINE (not cancel) while a follower with a live context waits", "C11 quick", "missed as built (contexts only ended by cancel); caught after adding contexts that end with DeadlineExceeded - which also exposed a genuine defect on the subgraph single flight (follower inherits the leader's deadline failure), fixed in c57fb96"),
+ "C11-6": ("C11-2", "a failed subgraph single-flight item is never removed: a LATER identical fetch (not in flight together) gets the stale error", "C11 quick", "missed as built (always-failing upstreams, overlapping arrivals only); caught after adding transient failures and sequenced arrivals"),
+ "C14-5": ("C14-1", "a nested @defer mounted below a denied object field whose owning frame aborts its validation walk early (a non-null sibling bubbling to the root)", "MISSED", "not caught: the defer transport has single-site variants and curated two-site operations, none with an aborting non-null sibling (limit, DESIGN 8.6)"),
+ "C14-6": ("C14-2", "post-fetch authorizer, the same protected coordinate in two deferred fragments, ONE transient hard error of the authorizer for it", "C14 quick", "missed as built; caught after adding curated two-fragment operations with an authorizer that fails once"),
+ "C15-5": ("C15-1", "a top-level string-like variable whose value contains a control character and neither quote nor backslash", "C15 quick", "caught as built (164 fingerprints)"),
+ "C15-6": ("C15-2", "an input object literal with a field whose value is directly a variable, the client sending the empty string", "C15 quick", "caught as built"),
+ "C16-5": ("C16-1", "a cache entry that comes back with a zero-length value (no error)", "C16 quick", "missed as built; caught after adding the cache faults lose-one-value / lose-all-values"),
+ "C16-6": ("C16-2", "cache attached, an error-free storable 200 whose _entities list does not line up with the representations", "C16 quick", "missed as built; caught after adding the response classes entities-empty / entities-short"),
+}
+
 def log_summary(name, logdir="/tmp/seedlogs"):
     p = "%s/%s.log" % (logdir, name)
     if not os.path.exists(p):
@@ -144,5 +167,20 @@ for name, (srcname, needs, caught, how) in SEEDS2.items():
             shutil.copy(os.path.join(src, f), os.path.join(dst, f if f != "demo_test.go" else "demo_test.go.txt"))
     meta = {"property": prop, "breaks": prop, "round": 2, "needs_to_manifest": needs, "produced_by": "independent sub-agent (second round) given only the property text, a scratch worktree and a list of what round 1 had taken",
             "confirmed_by_me": log_summary(srcname, "/tmp/seedlogs2"), "check_result": {"caught_by": caught, "how": how}, "run": "scripts/seedrun.sh seeded/%s/patch.diff %s quick" % (name, caught[:3] if caught.startswith("C") else prop)}
+    json.dump(meta, open(os.path.join(dst, "meta.json"), "w"), indent=1)
+    print(name, meta["confirmed_by_me"] if isinstance(meta["confirmed_by_me"], str) else (meta["confirmed_by_me"]["demo_without_change"], meta["confirmed_by_me"]["demo_with_change"], meta["confirmed_by_me"]["complete"]))
+
+for name, (srcname, needs, caught, how) in SEEDS3.items():
+    prop = name[:3]
+    src = "/tmp/seedout3/" + srcname
+    if not os.path.isdir(src) or not os.path.exists(src + "/patch.diff"):
+        continue
+    dst = os.path.join(os.path.dirname(os.path.dirname(os.path.abspath(__file__))), "seeded", name)
+    os.makedirs(dst, exist_ok=True)
+    for f in os.listdir(src):
+        if f in ("patch.diff", "demo_test.go", "notes.md"):
+            shutil.copy(os.path.join(src, f), os.path.join(dst, f if f != "demo_test.go" else "demo_test.go.txt"))
+    meta = {"property": prop, "breaks": prop, "round": 3, "needs_to_manifest": needs, "produced_by": "independent sub-agent (third round) given only the property text, a scratch worktree and a list of what rounds 1 and 2 had taken",
+            "confirmed_by_me": log_summary(srcname, "/tmp/seedlogs3"), "check_result": {"caught_by": caught, "how": how}, "run": "scripts/seedrun.sh seeded/%s/patch.diff %s quick" % (name, caught[:3] if caught.startswith("C") else prop)}
     json.dump(meta, open(os.path.join(dst, "meta.json"), "w"), indent=1)
     print(name, meta["confirmed_by_me"] if isinstance(meta["confirmed_by_me"], str) else (meta["confirmed_by_me"]["demo_without_change"], meta["confirmed_by_me"]["demo_with_change"], meta["confirmed_by_me"]["complete"]))
